@@ -1,19 +1,20 @@
 SPECIFICATION Spec
 CONSTANTS
-  Piped = {"in","out","err"}
-  Cap = 2
+  Piped = {"out","err"}
+  Cap = 1
   K = 1
   ReadBuf = 1
-  InLen = 2
-  MaxOut = 3
+  InLen = 0
+  MaxOut = 2
   MaxErr = 2
-  MaxChunk = 2
-  Limits <- L_12
+  MaxChunk = 1
+  Limits <- L_none
   TLims <- T_012
   MaxCalls = 2
-  MaxNow = 3
+  MaxNow = 2
   ShortIO = FALSE
   DeadlineCheck = TRUE
   CloseBeforeSend = TRUE
+  ClearOnErr = TRUE
 INVARIANT NoViolation EnvOk
 CONSTRAINT Bound
